@@ -132,18 +132,18 @@ TODO_REASON = 'check not built yet in this round (planned, see DESIGN.md section
 # properties whose model functions are additionally tied to the source by translator T7 (function bodies re-executed symbolically from
 # /repo on every run, `Src.f = Model.f` proved in BC/Props/<id>Src.lean; DESIGN.md section 0.8)
 SRC_TIES = {
-    'C01': 'THE WHOLE BODY of the while loop of _integrate (= the model function iterate, for every loop state) and the while condition; the loop-body statements of the integration step, the initial state, the Vector operators, Wind.vector, barrel elevation/azimuth, drag_by_mach',
+    'C01': 'the loop-body statements of the integration step, the initial state, the Vector operators, Wind.vector, barrel elevation/azimuth, drag_by_mach',
     'C02': 'zero_angle in slices (start on the sight line, zero distance, loop condition, error and correction from the trial row, verdict)',
-    'C03': 'THE WHOLE BODY of the while loop of _integrate (= iterate) and the while condition; _TrajectoryDataFilter.__init__/should_record/check_next_time and the skip loop',
+    'C03': 'THE WHOLE BODY of the while loop of _integrate (= the model function iterate, for every loop state; the whole-run theorems of C01 C04 C11 C12 C15 are about the same function) and the while condition; _TrajectoryDataFilter.__init__/should_record/check_next_time and the skip loop',
     'C04': 'the limit check (three limits, reason chain), the while condition and min_step of _integrate',
     'C05': 'create_trajectory_row with the _new_* constructors, get_correction, calculate_energy/ogw, spin_drift, calc_stability_coefficient',
     'C08': 'eleven Atmo functions incl. calculate_air_density and get_density_factor_and_mach_for_altitude',
     'C09': 'calculate_curve (first entry, loop body and bounds, closing entry) and the look-up _calculate_by_curve_and_mach_list (bracket, loop condition and body, selection, evaluation)',
     'C10': '_init_trajectory(shot_info): every scalar attribute it assigns is a function of the configuration and the raw values of the shot alone (= Run.ofShot)',
-    'C11': 'THE WHOLE BODY of the while loop of _integrate (= iterate) and the while condition; should_record and clear_current_flag',
+    'C11': 'should_record and clear_current_flag',
     'C12': '_WindSock.__init__/update_cache/vector_for_range/current_vector and Wind.vector',
     'C14': 'linear_interpolation in slices, sectional_density, BCPoint._machC and the Mach of a velocity point (DragModelMultiBC glue matched structurally)',
-    'C15': 'THE WHOLE BODY of the while loop of _integrate (= iterate); setup_seen_zero, check_zero_crossing, check_mach_crossing, should_record',
+    'C15': 'setup_seen_zero, check_zero_crossing, check_mach_crossing, should_record',
     'C16': 'danger_space: half height and both scan tests (scan shapes matched structurally)',
     'C17': 'Ammo.get_velocity_for_temp and calc_powder_sens with its guard',
     'C19': 'Sight.get_adjustment with _adjust_sfp_reticle_steps per focal plane',
